@@ -67,6 +67,16 @@ Definition denorm_ref (lk : list (nat * ua)) (r : nat * nat * nat) : row :=
   let '(s, t, ty) := r in [lookup lk s; lookup lk t; lookup lk ty].
 Definition normalized_nodes (lk : list (nat * ua)) (nodes : list gnode) : list row := sort_rows (map (denorm_node lk) nodes).
 Definition normalized_refs (lk : list (nat * ua)) (refs : list (nat * nat * nat)) : list row := sort_rows (map (denorm_ref lk) refs).
+(* per namespace (namespace_uri given): the node rows whose ns is k; the references with the source or the target among the ids of those rows
+   (__get_references_df joins the ids of the namespace's nodes on Src and on Trg).  The lookup table is that of ALL nodes in both cases. *)
+Definition idmem (x : nat) (l : list nat) : bool := existsb (Nat.eqb x) l.
+Definition nodes_of_ns (k : nat) (nodes : list (gnode * nat)) : list gnode := map fst (filter (fun p => Nat.eqb (snd p) k) nodes).
+Definition normalized_nodes_ns (lk : list (nat * ua)) (k : nat) (nodes : list (gnode * nat)) : list row := normalized_nodes lk (nodes_of_ns k nodes).
+Definition refs_of_ns (k : nat) (nodes : list (gnode * nat)) (refs : list (nat * nat * nat)) : list (nat * nat * nat) :=
+  let ids := map g_id (nodes_of_ns k nodes) in
+  filter (fun r => idmem (fst (fst r)) ids || idmem (snd (fst r)) ids) refs.
+Definition normalized_refs_ns (lk : list (nat * ua)) (k : nat) (nodes : list (gnode * nat)) (refs : list (nat * nat * nat)) : list row :=
+  normalized_refs lk (refs_of_ns k nodes refs).
 (* renumbering the internal ids *)
 Definition rename_node (f : nat -> nat) (n : gnode) : gnode :=
   {| g_id := f (g_id n); g_cols := g_cols n; g_refcols := map (fun o => match o with Some i => Some (f i) | None => None end) (g_refcols n) |}.
